@@ -50,12 +50,15 @@ func main() {
 		}
 	}
 
-	// sequential baseline of this process
+	// baseline: the parent's (every call alone, first in its process) when given — the soak then also
+	// covers "same result in another process" — otherwise a sequential pass of this process
 	base := make([]string, len(calls))
-	for i, c := range calls {
-		base[i] = c.Run().Res
-		if strings.HasPrefix(base[i], pool.LibPanicPrefix) {
-			report("LIBPANIC", c.Name, base[i], "")
+	if *baseFile == "" {
+		for i, c := range calls {
+			base[i] = c.Run().Res
+			if strings.HasPrefix(base[i], pool.LibPanicPrefix) {
+				report("LIBPANIC", c.Name, base[i], "")
+			}
 		}
 	}
 	if *baseFile != "" {
@@ -69,11 +72,7 @@ func main() {
 			fmt.Fprintln(os.Stderr, "c18race: bad baseline file")
 			os.Exit(2)
 		}
-		for i := range calls {
-			if parent[i] != base[i] {
-				report("MISMATCH-PROCESS", calls[i].Name, base[i], parent[i])
-			}
-		}
+		base = parent
 	}
 
 	deadline := time.Now().Add(time.Duration(*seconds * float64(time.Second)))
